@@ -915,61 +915,61 @@ func stringToReflectValue(value string, kind reflect.Kind) (reflect.Value, error
 		}
 		return reflect.ValueOf(value), nil
 	case reflect.Int:
-		value, err := strconv.ParseInt(value, 0, 0)
+		value, err := strconv.ParseInt(value, 10, 0)
 		if err != nil {
 			return reflect.Value{}, err
 		}
 		return reflect.ValueOf(int(value)), nil
 	case reflect.Int8:
-		value, err := strconv.ParseInt(value, 0, 8)
+		value, err := strconv.ParseInt(value, 10, 8)
 		if err != nil {
 			return reflect.Value{}, err
 		}
 		return reflect.ValueOf(int8(value)), nil
 	case reflect.Int16:
-		value, err := strconv.ParseInt(value, 0, 16)
+		value, err := strconv.ParseInt(value, 10, 16)
 		if err != nil {
 			return reflect.Value{}, err
 		}
 		return reflect.ValueOf(int16(value)), nil
 	case reflect.Int32:
-		value, err := strconv.ParseInt(value, 0, 32)
+		value, err := strconv.ParseInt(value, 10, 32)
 		if err != nil {
 			return reflect.Value{}, err
 		}
 		return reflect.ValueOf(int32(value)), nil
 	case reflect.Int64:
-		value, err := strconv.ParseInt(value, 0, 64)
+		value, err := strconv.ParseInt(value, 10, 64)
 		if err != nil {
 			return reflect.Value{}, err
 		}
 		return reflect.ValueOf(value), nil
 	case reflect.Uint:
-		value, err := strconv.ParseUint(value, 0, 0)
+		value, err := strconv.ParseUint(value, 10, 0)
 		if err != nil {
 			return reflect.Value{}, err
 		}
 		return reflect.ValueOf(uint(value)), nil
 	case reflect.Uint8:
-		value, err := strconv.ParseUint(value, 0, 8)
+		value, err := strconv.ParseUint(value, 10, 8)
 		if err != nil {
 			return reflect.Value{}, err
 		}
 		return reflect.ValueOf(uint8(value)), nil
 	case reflect.Uint16:
-		value, err := strconv.ParseUint(value, 0, 16)
+		value, err := strconv.ParseUint(value, 10, 16)
 		if err != nil {
 			return reflect.Value{}, err
 		}
 		return reflect.ValueOf(uint16(value)), nil
 	case reflect.Uint32:
-		value, err := strconv.ParseUint(value, 0, 32)
+		value, err := strconv.ParseUint(value, 10, 32)
 		if err != nil {
 			return reflect.Value{}, err
 		}
 		return reflect.ValueOf(uint32(value)), nil
 	case reflect.Uint64:
-		value, err := strconv.ParseUint(value, 0, 64)
+		value, err := strconv.ParseUint(value, 10, 64)
 		if err != nil {
 			return reflect.Value{}, err
 		}
